@@ -135,6 +135,32 @@ def continue_sound(word: str, cuts: List[bool]) -> bool:
     return True
 
 
+ALPHA = os.environ.get("H_ALPHA", "ab")
+
+
+def concretise(word):
+    """case split over the stated alphabet: one path per concrete word (CrossHair's own symbolic regex
+    matcher would otherwise explore thousands of partial-match paths for a handful of words)"""
+    out = ""
+    for c in word:
+        for a in ALPHA:
+            if c == a:
+                out += a
+                break
+        else:
+            raise IgnoreAttempt("outside the alphabet")
+    return out
+
+
+def same_as_whole_fa(word: str, cuts: List[bool]) -> bool:
+    """
+    pre: len(word) <= N and len(cuts) == max(0, len(word) - 1) and all(c in ALPHA for c in word)
+    post: _
+    """
+    # finite-alphabet variant for grammars with regex terminals (cuts inside regex matches)
+    return same_as_whole(concretise(word), cuts)
+
+
 def reach(word: str, cuts: List[bool]) -> bool:
     """
     pre: len(word) <= N and len(cuts) == max(0, len(word) - 1)
